@@ -15,8 +15,8 @@ ASSUMPTIONS = [
 EOLS = [b"\r\n", b"\n", b"\r"]
 SHAPES = [
     ["data: a"], ["data: a", "data: b"], ["id: 1", "data: a"], ["event: n", "data: a"], ["id: 1", "event: n", "data: a", "data: b"],
-    ["data:"], ["data"], ["data: a", "data:"], ["retry: 5000", "data: a"], [": c", "data: a"], ["data:  x"], ["event: n"],
-    ["id: 2", "retry: 70", "data: é"], ["data: a", ": c", "data: b"], ["foo: bar", "data: a"], ["id", "data: a"],
+    ["id", "data: a"], ["data:"], ["retry: 5000", "data: a"], ["data"], ["data: a", "data:"], [": c", "data: a"], ["data:  x"], ["event: n"],
+    ["id: 2", "retry: 70", "data: é"], ["data: a", ": c", "data: b"], ["foo: bar", "data: a"], ["id:", "retry: x", "data: a"],
 ]
 HEAD = b"HTTP/1.1 200 OK\r\nContent-Type: text/event-stream\r\n"
 
